@@ -1624,8 +1624,8 @@ class TimeDeltaSec(TimeDeltaFormat):
             except AttributeError:
                 val2 = 0
 
-        val *= Unit.second2day
-        val2 *= Unit.second2day
+        val = val * Unit.second2day
+        val2 = val2 * Unit.second2day
         _delta = val - (np.floor(val + val2))
         jd1 = val - _delta
         jd2 = val2 + _delta
